@@ -144,6 +144,12 @@ def run(ctx):
                 for entry, op in entry_ops(t):
                     cls = "ascii:%d" % ord(ch) if ord(ch) < 128 else text_classes(ch)
                     judge(ctx, entry, op, (entry, cls, cx))
+        from ..gen import long_urls
+
+        if ctx.shard == 0:
+            for s in long_urls():
+                for op in ({"op": "ctor", "s": s}, {"op": "mod", "base": {"op": "ctor", "s": s}, "m": "with_user", "args": ["a b"]}, {"op": "join", "base": {"op": "ctor", "s": s}, "ref": {"op": "ctor", "s": "x y"}}):
+                    judge(ctx, "long." + op["op"], op, ("long", op["op"], len(s)))
         ctx.sample({"entry": "join.base_escaped", "op": dict(entry_ops("%4\udc80"))["join.base_escaped"]})
         ctx.notes["kernel_chars"] = len(chars)
         return
